@@ -98,6 +98,15 @@ impl Property for C19 {
     }
     fn generate(&self, seed: u64, idx: u64, tier: Tier) -> Scenario {
         let mut rng = Rng::new(seed ^ 0xC19 ^ idx.wrapping_mul(0x9E37_79B9_7F4A_7C15));
+        // the transaction-id monitor also runs over other families' scenarios (node 0 of each)
+        if idx % 8 == 7 {
+            let sub = idx / 8;
+            return match sub % 3 {
+                0 => super::c03::C03.generate(seed, sub, tier),
+                1 => super::c04::C04.generate(seed, sub, tier),
+                _ => super::c15::C15.generate(seed, sub, tier),
+            };
+        }
         if idx % 160 == 1 {
             // generator soak (plain enumeration under seeded entropy; see DESIGN.md "honest scope")
             let mut sc = Scenario::new("c19_soak");
@@ -189,7 +198,7 @@ impl Property for C19 {
         for e in &run.log {
             if let Ev::Api { t, step, ev } = e {
                 match ev {
-                    ApiEv::SearchStart { ih, .. } => windows.push((*step, *ih, *t, None)),
+                    ApiEv::SearchStart { node: 0, ih, .. } => windows.push((*step, *ih, *t, None)),
                     ApiEv::SearchEnd => {
                         if let Some(w) = windows.iter_mut().find(|w| w.0 == *step) {
                             w.3 = Some(*t);
@@ -279,17 +288,20 @@ impl Property for C19 {
         if windows.len() >= 5 {
             v.hit("five_plus_searches");
         }
+        if sc.family != "c19" {
+            v.hit("monitor_over_other_families");
+        }
         v.nontrivial = queries > 3;
         v.sample = json!({"family": "wire", "queries": queries, "prefixes": acts.len(), "searches": windows.len(), "max_ids_in_one_activity": max_per_prefix, "hours": sc.param("hours")});
         v
     }
     fn rule(&self) -> &'static str {
-        "wire family: one real node with 1..12 stub contacts (some going silent, sometimes as routers) running 1..20 concurrent and sequential searches (the same info-hash searched again later) over 0..24 virtual hours, optional message faults; every query the node emits is checked (8 bytes, one activity per 5-byte prefix, one prefix per search, <= 2 find_node prefixes, no id repeated except the first bootstrap round's id towards distinct addresses). soak family (1 in 160 cases): one message-id generator driven through 2^24 + 4096 ids and an action-id generator through 10^5 activities under seeded entropy. non-trivial = more than 3 queries observed / soak completed; distinct = distinct order digests"
+        "wire family: one real node with 1..12 stub contacts (some going silent, sometimes as routers) running 1..20 concurrent and sequential searches (the same info-hash searched again later) over 0..24 virtual hours, optional message faults; every query the node emits is checked (8 bytes, one activity per 5-byte prefix, one prefix per search, <= 2 find_node prefixes, no id repeated except the first bootstrap round's id towards distinct addresses). 1 case in 8: the same monitor over scenarios of the C03, C04 and C15 families; soak family (1 in 160 cases): one message-id generator driven through 2^24 + 4096 ids and an action-id generator through 10^5 activities under seeded entropy. non-trivial = more than 3 queries observed / soak completed; distinct = distinct order digests"
     }
     fn assumptions(&self) -> Vec<&'static str> {
         vec!["the 2^24 wrap is reached by driving the generator directly (hook H2), which is enumeration rather than simulation; the 2^40 action-id wrap is out of reach and not claimed"]
     }
     fn required_reach(&self) -> Vec<&'static str> {
-        vec!["soak_2_24_plus_4096", "shared_first_round_id", "block_rollover_on_wire", "five_plus_searches"]
+        vec!["soak_2_24_plus_4096", "shared_first_round_id", "block_rollover_on_wire", "five_plus_searches", "monitor_over_other_families"]
     }
 }
